@@ -86,6 +86,17 @@ func (c *Ctx) fresh(hint, sort string) string {
 	return name
 }
 
+// isArrayConst: whether name was declared as a constant of an array sort.
+func (c *Ctx) isArrayConst(name string) bool {
+	pre := "(declare-const " + name + " (Array"
+	for _, d := range c.decls {
+		if strings.HasPrefix(d, pre) {
+			return true
+		}
+	}
+	return false
+}
+
 func (c *Ctx) declareFun(name string, args []string, ret string) {
 	if c.declSet[name] {
 		return
